@@ -86,8 +86,8 @@ CLAIMED.update({
          "text": "Decides necessary conditions of exactness: every sum in add/merge is homogeneous in the data (m_k degree k) and in the weights (m1 degree 0, m2..m4 and wsum degree 1); every weighted accessor has weight degree 0 (scale invariance for all inputs); divisions by count/weight-sum derived quantities are dominated by positivity facts (incl. empty merges); merge writes the target only by a final struct copy; min/max/count merged correctly; zero weights ignored. Numeric coefficients are not decided.",
          "note": "catches wrong powers and missing/extra factors, not wrong constants"},
  "C18": {"engine": "INV + ORD-style + SHIFT + DEG", "technique": "static analysis: exchange-only writes, grouped triple swaps, exhaustive order abstraction of one sift round, heapsort skeleton, exhaustive bin assignment, copy/allocation agreement, translation and homogeneity typing of the autocorrelation",
-         "text": "Sorting writes array elements only through exchanges (same multiset for every input); time-series exchanges move all three parallel arrays with one index pair; one sift round moves the root to the largest of root and existing children for every ordering of the keys and every heap boundary, and the heapsort skeleton (build from n/2-1 down to 0, extract n-1 down to 1, no other way out than no data) is in place - the structural part of 'ascending order'; histogram filling adds exactly one contribution per sample on an exhaustive bin assignment over the right range; copies copy what they allocate; every autocorrelation coefficient is typed shift-invariant and of scale degree 0 with lag zero the literal one. Medians, quartiles and five-number summaries are value-level and not claimed.",
-         "note": "median / quartile clauses are out of reach; sift termination and the numerical value of coefficients are not decided"},
+         "text": "Sorting writes array elements only through exchanges (same multiset for every input); time-series exchanges move all three parallel arrays with one index pair; one sift round moves the root to the largest of root and existing children for every ordering of the keys and every heap boundary, and the heapsort skeleton (build from n/2-1 down to 0, extract n-1 down to 1, no other way out than no data) is in place - the structural part of 'ascending order'; histogram filling adds exactly one contribution per sample on an exhaustive bin assignment over the right range; copies copy what they allocate; every autocorrelation coefficient is typed shift-invariant and of scale degree 0 with lag zero the literal one (and the zero-variance test is scale-free); of the median / quartile clauses only necessary conditions are decided: the array-median helper indexes inside the array for every n >= 1 and is never called with length 0, and a searched order statistic starts from a sample, never from a placeholder literal; the histogram report never divides by a zero bar scale (all-empty histogram). That the reported medians / quartiles are true ones and ordered is value-level and not claimed.",
+         "note": "median / quartile values are out of reach (only index safety and no-placeholder are decided); sift termination and the numerical value of coefficients are not decided"},
  "C19": {"engine": "INV (effects)", "technique": "static analysis: shared-state discipline over all static-storage variables, dispenser/join shape, thread-local reset classification",
          "text": "Every non-thread-local, non-const static variable is atomic-only, set up before the first pthread_create, a mutex or never written; the trial index comes from an atomic fetch-add of 1 with the bound test before use, trial pointer = base + index*size, trial function called once per index; create/join loops agree; every thread-local written at run time is reset by a per-trial initialiser, a parameter memo or reviewed result-neutral.",
          "note": "bit-identity with a sequential run as such is not decided; neutral table reviewed by reading"},
